@@ -79,6 +79,7 @@ def run(ctx):
                 twice = True
     ctx.check(not twice, 'C12.R2', '%s|send-at-most-once' % L, site, 'no path sends two responses', 'a path calls _send_response twice')
     # what is sent: bytes of a stream into which `response.write` encoded
+    respvars = set()
     for sn, scall in sends:
         ssite = '%s:%s %s' % (SESSION, scall.lineno, L)
         a = scall.args[0] if scall.args else None
@@ -89,11 +90,11 @@ def run(ctx):
             # every def of the stream reaching the send is followed by a response.write into it
             defs = rd.reaching(sn, sv)
             okd = bool(defs) and all(d[2] is not None and any(g.dominates(d[2], wn) and g.all_paths_pass(d[2], sn, [wn]) for wn, wc in writes) for d in defs)
-            respvars = set(c.func.value.id for n, c in writes if isinstance(c.func.value, ast.Name))
+            respvars |= set(c.func.value.id for n, c in writes if isinstance(c.func.value, ast.Name))
         ctx.check(okd, 'C12.R2', '%s|sent-bytes-are-encoded-response' % L, ssite, 'the bytes sent are the buffer a response was encoded into',
                   'the bytes passed to _send_response are not the encoding of the response on every path')
     # definite assignment of `response` at every encode
-    resp_writes = [(n, c) for n, c in call_nodes(g, '.write') if isinstance(c.func.value, ast.Name) and c.func.value.id in ('response',) or
+    resp_writes = [(n, c) for n, c in call_nodes(g, '.write') if isinstance(c.func.value, ast.Name) and c.func.value.id in respvars or
                    (isinstance(c.func.value, ast.Name) and any(isinstance(v, ast.Call) and (call_name(v) or '').endswith('build_error_response') for v in rd.values(n, c.func.value.id)))]
     ctx.count('response_encode_sites', len(resp_writes), 2)
     for wn, wc in resp_writes:
@@ -131,7 +132,7 @@ def run(ctx):
                       'arm does not raise', 'except arm re-raises; the exception escapes the message loop without a response')
             hn = [n for n in g.nodes if n.kind == 'handler' and n.stmt is h][0]
             # every path from the handler entry to the end of the try assigns response
-            assigns = [n for n in g.nodes if h in n.handlers and any(var == 'response' for var, d in rd.node_defs[n.id])]
+            assigns = [n for n in g.nodes if h in n.handlers and any(var in respvars for var, d in rd.node_defs[n.id])]
             after = [n for n in g.nodes if h not in n.handlers and n is not hn and n.id in g.reachable(hn)]
             leaves_without = False
             seen = g.reachable(hn, assigns)
